@@ -33,6 +33,9 @@ def lateDemand (s : State) (e : Event) : Bool :=
   !s.closed && s.stream.isNone && !s.conf.odStatic && s.conf.odPub &&
   (s.odPub == .ready || s.odPub == .closing)
 
+/-- split `Inv2` into its fields and let `grind` discharge each -/
+macro "inv2_fields" : tactic => `(tactic| (constructor <;> (try unfold Holding) <;> grind))
+
 theorem inv2_rdstep {s s' : State} (hi : Inv s) (h : Inv2 s) (R : RdStep s s') : Inv2 s' := by
   have hne : s.readers ≠ [] → s'.readers ≠ [] := by
     intro h1 h2
@@ -46,9 +49,26 @@ theorem inv2_rdstep {s s' : State} (hi : Inv s) (h : Inv2 s) (R : RdStep s s') :
     have := odStatic_iff s.conf
     unfold Conf.odPub at h1
     grind
-  cases hi; cases h; cases R
+  have hgS : s.conf.odStatic = true → s'.odSrc = .closing → s'.readers = s.readers := by
+    intro h2 h1
+    by_cases hh : s'.readers = s.readers
+    · exact hh
+    · exact absurd h1 ((R.grow hh).1 h2)
+  have hgP : s.conf.odStatic = false → s.conf.odPub = true → s'.odPub = .closing → s'.readers = s.readers := by
+    intro h2 h3 h1
+    by_cases hh : s'.readers = s.readers
+    · exact hh
+    · exact absurd h1 ((R.grow hh).2 h2 h3)
+  have f1 := R.f1
+  have f2 := R.f2
+  have oS := R.odS
+  have oP := R.odP
+  have f5 := R.f5
+  have f7 := R.f7
+  have f8 := R.f8
+  cases h
   unfold Holding at *
-  constructor <;> grind
+  inv2_fields
 
 theorem holdPub_rdstep {s s' : State} (h : HoldPubOK s) (R : RdStep s s') (hn : ¬ Holding s) : HoldPubOK s' := by
   cases R; unfold HoldPubOK Holding at *; grind
@@ -59,7 +79,7 @@ theorem inv2_consume (w : W) (hi : Inv w.s) (h : Inv2 w.s) (hs : w.s.stream.isSo
   rw [e]
   have h1 := inv2_rdstep hi h R
   refine ⟨?_, by simp [Holding]⟩
-  cases h1; unfold Holding at *; constructor <;> grind
+  cases h1; unfold Holding at *; inv2_fields
 
 /-- the stream/readers/hold part of the state after the shared prefix of doAddPublisher / srcReady -/
 theorem inv2_pubAttach (p : Nat) (ok : Bool) (w : W) (hi : Inv w.s) (h : Inv2 w.s) (hc : w.s.closed = false)
@@ -76,7 +96,7 @@ theorem inv2_pubAttach (p : Nat) (ok : Bool) (w : W) (hi : Inv w.s) (h : Inv2 w.
     unfold HoldPubOK Holding
     constructor
     · (repeat' split) <;> (try simp only [setAvailable_s] at *) <;>
-        (cases hi; cases h; unfold Holding at *; constructor <;> grind)
+        (cases hi; cases h; unfold Holding at *; inv2_fields)
     · (repeat' split) <;> (try simp only [setAvailable_s] at *) <;> (cases hi; grind)
   · simp only [Bool.not_true, Bool.false_eq_true, if_false, emit_s]
     have key : ∀ w3 : W, Inv w3.s → Inv2 w3.s → w3.s.stream.isSome = true →
@@ -90,7 +110,7 @@ theorem inv2_pubAttach (p : Nat) (ok : Bool) (w : W) (hi : Inv w.s) (h : Inv2 w.
         (cases hi; inv_fields)
     · (repeat' split) <;>
         simp only [emit_s, upd_s, newSub_s, setOnline_s, setAvailable_s, onDemandPublisherScheduleClose] at * <;>
-        (cases hi; cases h; unfold Holding at *; constructor <;> grind)
+        (cases hi; cases h; unfold Holding at *; inv2_fields)
     · (repeat' split) <;>
         simp only [emit_s, upd_s, newSub_s, setOnline_s, setAvailable_s, onDemandPublisherScheduleClose] at * <;>
         (cases hi; grind)
